@@ -157,6 +157,20 @@ type nullReader struct{}
 
 func (nullReader) Read(p []byte) (int, error) { return 0, io.EOF }
 
+// bypassWithoutPin: the client's TLS configuration switches ordinary validation off without
+// carrying the fingerprint check itself.  Every handshake made with that configuration (also the
+// one after a proxy's CONNECT) would then be unpinned.
+func bypassWithoutPin(c *http.Client) bool {
+	if c == nil || c.Transport == nil {
+		return false
+	}
+	t, ok := c.Transport.(*http.Transport)
+	if !ok || t.TLSClientConfig == nil {
+		return false
+	}
+	return t.TLSClientConfig.InsecureSkipVerify && t.TLSClientConfig.VerifyConnection == nil
+}
+
 func transportPinned(c *http.Client) bool {
 	if c == nil || c.Transport == nil {
 		return false
@@ -208,6 +222,7 @@ func HarnessC13Go() {
 			verifAssert(postCalls == before, "C13.go.malformed-pin-sends-nothing")
 		}
 		if verifParam("stubobs") == 1 && postClient != nil {
+			verifAssert(!bypassWithoutPin(postClient), "C13.go.validation-never-bypassed-without-the-pin-in-the-same-config")
 			if kind == 0 {
 				verifAssert(!transportPinned(postClient), "C13.go.unpinned-call-keeps-ordinary-validation")
 			}
